@@ -55,6 +55,12 @@ def fStr (j : Json) (k : String) : R String := do jstr (← jget j k)
 def fBool (j : Json) (k : String) : R Bool := do jbool (← jget j k)
 def fArr (j : Json) (k : String) : R (List Json) := do jarr (← jget j k)
 
+/-- array field; `null` or absent = empty (Go marshals nil slices as null) -/
+def fArrD (j : Json) (k : String) : R (List Json) :=
+  match jopt j k with
+  | none => .ok []
+  | some v => jarr v
+
 def fOptNat (j : Json) (k : String) : R (Option Nat) :=
   match jopt j k with
   | none => .ok none
